@@ -108,6 +108,7 @@ func (g Generator) Generate(openapi3Spec *openapi3.Swagger, outDir string, packa
 		}
 		basePath = u.Path
 	}
+	basePath = strings.TrimRight(basePath, "/")
 
 	gen, err := generator.NewGenerator(s,
 		cfg,
